@@ -673,7 +673,21 @@ def evaluate(item):
             rec["viol"], rec["directions"], rec["levels"] = v, info["directions"], info["levels"]
             rec["invalid"] = bool(info.get("invalid"))
     except Unsupported as e:
-        rec["harness"] = f"tracer: {e}"
+        # the structural tracer only understands well-formed wiring: if the real validator rejects
+        # the package, that IS the finding (an accepted with-block lowered to an invalid HUGR)
+        err = quiet_validate(o.package) if (o is not None and o.kind == "ok") else None
+        if err is not None:
+            msg = err.split("Stack backtrace")[0].strip().replace("\n", " ")
+            rec["viol"] = [("invalid-hugr:other", f"{msg[-260:]} (tracer stopped at: {e})")]
+            rec["invalid"] = True
+            rec["kind"] = "ok"
+        elif "reaches an output" in str(e):
+            # a freshly packed control array flows into an output that belongs to another value:
+            # the controls were not handed back to where they came from
+            rec["viol"] = [("threading:packed-controls-reach-a-different-output", f"tracer: {e}")]
+            rec["kind"] = "ok"
+        else:
+            rec["harness"] = f"tracer: {e}"
     finally:
         if mod is not None:
             gload.unload(mod)
